@@ -134,6 +134,11 @@ class BatchProcessor:
         # Remove padding if needed
         if self.n_pad > 0:
             return results[: -self.n_pad]
+        if len(results.devices()) > 1:
+            # Nothing was sliced off, so the result is still sharded across the
+            # devices that produced it and cannot be broadcast to them again;
+            # gather it onto a single device first
+            results = jax.device_put(results, jax.devices()[0])
         return results
 
     @property
